@@ -21,6 +21,7 @@ func init() {
 		},
 		Run: runC04,
 		Controls: []Control{
+			{Name: "propagation-skipped-when-selection-unchanged", File: "routingtable/locRIB/loc_rib.go", Old: "func (a *LocRIB) propagateChanges(oldRoute *route.Route, newRoute *route.Route) {\n", New: "func (a *LocRIB) propagateChanges(oldRoute *route.Route, newRoute *route.Route) {\n\tif oldRoute.ECMPPathCount() == newRoute.ECMPPathCount() && oldRoute.BestPath() == newRoute.BestPath() {\n\t\treturn\n\t}\n", Expect: "withdraw-before-announce"},
 			{Name: "diff-by-selection-equality", File: "route/path.go", Old: "\t\tif p == needle {\n", New: "\t\tif p == needle || p.Equal(needle) {\n", Expect: "diff-membership-is-identity"},
 			{Name: "refactor-diff-operands-swapped", Silent: true, File: "route/path.go", Old: "\t\tif p == needle {\n", New: "\t\tif needle == p {\n"},
 			{Name: "withdraw-limit-from-wrong-route", File: "routingtable/locRIB/loc_rib.go", Old: "\t\tnewPathsLimit := int(math.Min(int(newMaxPaths), len(newRoute.Paths())))\n\n\t\twithdraw", New: "\t\tnewPathsLimit := int(math.Min(int(oldMaxPaths), len(newRoute.Paths())))\n\t\t_ = newMaxPaths\n\n\t\twithdraw", Expect: "limit-from-own-route"},
@@ -154,6 +155,55 @@ func runC04(c *core.Ctx) {
 			}
 		}
 		c.Check(ok, "withdraw-before-announce", prop.Name(), prop.Decl.Pos(), "propagateChanges does not call removePathsFromClients(old,new) and then addPathsToClients(old,new): a best-only client would see the announcement of the new best path followed by a withdrawal for the same prefix")
+		// … on every path: the per-client diff is the only place that knows each client's window (best-only, ECMP, max-paths N);
+		// a shortcut that skips it because "the selection did not change" starves the clients whose window is wider
+		for _, pr := range []struct {
+			fn   *core.Fn
+			what string
+		}{{rm, "removePathsFromClients"}, {ad, "addPathsToClients"}} {
+			gate := func(n ast.Node) bool {
+				return core.NodeHas(n, func(x ast.Node) bool {
+					cl, ok := x.(*ast.CallExpr)
+					return ok && core.Callee(prop.Pkg, cl) == pr.fn.Obj
+				})
+			}
+			rets, implicit := core.ExitsWithout(p.CFG(prop), gate)
+			pos := prop.Decl.Pos()
+			if len(rets) > 0 {
+				pos = rets[0].Pos()
+			}
+			c.Check(len(rets) == 0 && !implicit, "withdraw-before-announce", prop.Name()+" runs "+pr.what+" on every path", pos,
+				"propagateChanges can return without running the per-client diff ("+pr.what+"): a client whose window reaches beyond what the shortcut looks at (max-paths N beyond the equal-cost set) is never told that a path entered or left its window")
+		}
+		// the options of a client are looked up when the client is served (an unregistered client has none and gets nothing)
+		getOpts := p.Func("routingtable.(*ClientManager).GetOptions")
+		for _, df := range []*core.Fn{rm, ad} {
+			okOpts := false
+			ast.Inspect(df.Decl.Body, func(n ast.Node) bool {
+				rs, isR := n.(*ast.RangeStmt)
+				if !isR || rs.Value == nil && rs.Key == nil {
+					return true
+				}
+				// the loop variable that is the client
+				var clientObj types.Object
+				for _, v := range []ast.Expr{rs.Key, rs.Value} {
+					if v != nil && isClientIface(df, v) {
+						clientObj = core.ObjOf(df.Pkg, v)
+					}
+				}
+				if clientObj == nil {
+					return true
+				}
+				for _, call := range core.Calls(df.Pkg, rs.Body, func(o *types.Func) bool { return getOpts != nil && o == getOpts.Obj }) {
+					if len(call.Args) == 1 && core.ObjOf(df.Pkg, call.Args[0]) == clientObj {
+						okOpts = true
+					}
+				}
+				return true
+			})
+			c.Check(okOpts, "limit-from-own-route", df.Name()+" looks the client's options up when it serves the client", df.Decl.Pos(),
+				"the per-client options are not obtained with ClientManager.GetOptions(client) inside the client loop (e.g. they come from a snapshot taken before the loop): a client that is unregistered while a change is being propagated is still served with its old options after Unregister has returned")
+		}
 	} else {
 		c.Undecided("anchor", "removePathsFromClients/addPathsToClients", token.NoPos, "not found")
 	}
